@@ -28,6 +28,7 @@ RULE = (
 )
 RULE += (" " + 'References by id are also spelled in upper case, braced and without dashes; a set whose references all resolve must load (a load error needs a dangling reference).')
 RULE += (" Temporal correlation rules also use extended string conditions over rule names, with and without a rules key.")
+RULE += (" merge() receives its parts as list, tuple or one-shot iterator.")
 ASSUMPTIONS = [
     "queries are compared as strings of the shipped TextQueryTestBackend (isolation, not semantics)",
     "rules referenced both with and without generate are not asserted (unspecified)",
@@ -99,7 +100,9 @@ def _load(docs, path: str, split, tmpdir):
         if k < len(docs):
             parts.append(docs[k:])
         colls = [SigmaCollection.from_dicts(p, resolve_references=False, collect_filters=True) for p in parts if p]
-        return SigmaCollection.merge(colls)
+        # merge() takes any iterable: a list, a tuple or a one-shot iterator (chosen by the size of the split)
+        how = (len(docs) + len(colls)) % 3
+        return SigmaCollection.merge(colls if how == 0 else (tuple(colls) if how == 1 else iter(colls)))
     if path == "files":
         paths = []
         for n, d in enumerate(docs):
